@@ -600,6 +600,12 @@ func (a *Analysis) cowDiscipline(rep *Report, g *guardedState, name string, fn *
 
 // derivedFromGlobal computes, per function, the SSA values that point into memory reachable from a package-level variable.
 func globalDerived(fn *ssa.Function, inModule func(*ssa.Global) bool) map[ssa.Value]*ssa.Global {
+	return globalDerivedWith(fn, inModule, nil)
+}
+
+// globalDerivedWith: as globalDerived; the result of a call of a function in retDerived (a module function that hands
+// out memory reachable from a package-level variable: `return table[:n]`) is derived from that variable too.
+func globalDerivedWith(fn *ssa.Function, inModule func(*ssa.Global) bool, retDerived map[*ssa.Function]*ssa.Global) map[ssa.Value]*ssa.Global {
 	d := map[ssa.Value]*ssa.Global{}
 	changed := true
 	for changed {
@@ -659,11 +665,50 @@ func globalDerived(fn *ssa.Function, inModule func(*ssa.Global) bool) map[ssa.Va
 					if g, ok := d[in.Tuple]; ok && isRefType(in.Type()) {
 						set(in, g)
 					}
+				case *ssa.Call:
+					if callee := in.Call.StaticCallee(); callee != nil && retDerived != nil {
+						if g, ok := retDerived[callee]; ok && isRefType(in.Type()) {
+							set(in, g)
+						}
+					}
 				}
 			}
 		}
 	}
 	return d
+}
+
+// returnsGlobalDerived: the module functions some result of which points into memory reachable from a package-level
+// variable (fixpoint over calls of such functions).
+func (a *Analysis) returnsGlobalDerived(inModule func(*ssa.Global) bool) map[*ssa.Function]*ssa.Global {
+	out := map[*ssa.Function]*ssa.Global{}
+	for changed := true; changed; {
+		changed = false
+		for fn := range a.P.AllFuncs {
+			if !a.P.InModule(fn) || fn.Blocks == nil || a.P.IsTestFile(fn.Pos()) || out[fn] != nil {
+				continue
+			}
+			d := globalDerivedWith(fn, inModule, out)
+			if len(d) == 0 {
+				continue
+			}
+			for _, b := range fn.Blocks {
+				for _, in := range b.Instrs {
+					ret, ok := in.(*ssa.Return)
+					if !ok {
+						continue
+					}
+					for _, r := range ret.Results {
+						if g, has := d[r]; has && out[fn] == nil {
+							out[fn] = g
+							changed = true
+						}
+					}
+				}
+			}
+		}
+	}
+	return out
 }
 
 func isRefType(t types.Type) bool {
@@ -1134,11 +1179,12 @@ func (a *Analysis) computeGlobalFacts() *globalFactsT {
 	readers := map[*ssa.Global]map[*ssa.Function]bool{}
 	users := map[*ssa.Global]map[*ssa.Function]bool{}
 	wtp := a.writesThroughParams()
+	retDerived := a.returnsGlobalDerived(inModule)
 	for fn := range a.P.AllFuncs {
 		if !a.P.InModule(fn) || fn.Blocks == nil || a.P.IsTestFile(fn.Pos()) {
 			continue
 		}
-		d := globalDerived(fn, inModule)
+		d := globalDerivedWith(fn, inModule, retDerived)
 		for _, b := range fn.Blocks {
 			for _, in := range b.Instrs {
 				// memory of a package-level variable handed to a function that writes through that parameter (a method on
@@ -1172,6 +1218,19 @@ func (a *Analysis) computeGlobalFacts() *globalFactsT {
 					if bi, ok := in.Call.Value.(*ssa.Builtin); ok && (bi.Name() == "delete" || bi.Name() == "clear" || bi.Name() == "copy") && len(in.Call.Args) > 0 {
 						if g, ok := d[in.Call.Args[0]]; ok {
 							writes = append(writes, globalWrite{g, fn, in, bi.Name()})
+						}
+					}
+					// append onto a slice of shared storage writes the appended elements into that storage whenever the slice
+					// has capacity left (table[:n] of a longer table) – unless the capacity was cut with a three-index slice
+					if bi, ok := in.Call.Value.(*ssa.Builtin); ok && bi.Name() == "append" && len(in.Call.Args) > 0 {
+						if g, ok := d[in.Call.Args[0]]; ok {
+							capCut := false
+							if sl, isSl := in.Call.Args[0].(*ssa.Slice); isSl && sl.Max != nil {
+								capCut = true
+							}
+							if !capCut {
+								writes = append(writes, globalWrite{g, fn, in, "append into spare capacity"})
+							}
 						}
 					}
 				case *ssa.UnOp:
